@@ -66,6 +66,7 @@ func main() {
 	}
 	ip := &interp{}
 	run := func(l string) { out.Do(l, func() string { return ip.exec(l) }) }
+	runS := func(l string) string { return out.Do(l, func() string { return ip.exec(l) }) }
 	// corpus first
 	if dir := os.Getenv("VERIF_CORPUS"); dir != "" {
 		fs, _ := filepath.Glob(filepath.Join(dir, "*.ops"))
@@ -83,9 +84,7 @@ func main() {
 	}
 	episodes = hx.ArgInt(a, "episodes", episodes)
 	for e := 0; e < episodes; e++ {
-		for _, l := range genEpisode(r.Fork(), e, st) {
-			run(l)
-		}
+		genEpisode(r.Fork(), ip, runS, 10+r.Intn(25), st)
 	}
 	fmt.Println("STATS " + strings.TrimSuffix(out.StatsJSON(), "}") + "," + st.json() + "}")
 }
